@@ -208,8 +208,11 @@ class Driver:
                     self.classes.add('point_after_interval')
             else:
                 self.classes.add('gap')
-            if len(M.runs(key)) >= 2:
+            nr = len(M.runs(key))
+            if nr >= 2:
                 self.classes.add('multi_run')
+            if nr >= 9:
+                self.classes.add('pair_with_9+_runs')
         if e is not None:
             self.classes.add('interval')
         for k2, p in M.pres.items():
